@@ -40,6 +40,44 @@ FAMILIES = {
     "thematic": lambda n: "---\n\n" * n,
     "long-line": lambda n: "a" * (n * 8),
     "paragraph-then-defs": lambda n: "p\n" + "".join(f"[l{i}]: /u\n" for i in range(n)),
+    # constructs recognised by regular expressions or C-level string scans: the work counter does not see time spent inside them,
+    # the CPU backstop does (a super-polynomial pattern turns into `cpu-backstop` at the larger sizes)
+    "email-bad-domain": lambda n: "x <a@" + "b" * n + "_> y",
+    "email-bad-local": lambda n: "x <" + "a." * n + "@b> y",
+    "email-long-labels": lambda n: "<a@" + ".".join("b" * 9 for _ in range(n)) + "!>",
+    "uri-long": lambda n: "<a+b:" + "x" * (8 * n) + " >",
+    "uri-scheme-run": lambda n: "<" + "a" * n + ">",
+    "html-attrs": lambda n: "<a " + "b=c " * n + "x",
+    "html-attr-quotes": lambda n: "<a " + "b='c' " * n + "'",
+    "html-comment-dashes": lambda n: "<!--" + "-a" * n + "->",
+    "html-cdata": lambda n: "<![CDATA[" + "]]" * n + " >",
+    "html-pi": lambda n: "<?" + "?" * n + " x",
+    "entity-run": lambda n: "&" + "a" * n + ";",
+    "entity-numeric-run": lambda n: "&#" + "1" * n + ";",
+    "lrd-long-title": lambda n: "[l]: /u \"" + "t\\\"" * n + "\n\n[l]\n",
+    "lrd-open-title-lines": lambda n: "[l]: /u \"t\n" + "x\n" * n,
+    "lrd-label-spaces": lambda n: "[" + "a " * n + "]: /u\n\n[" + "a  " * n + "]\n",
+    "link-title-parens": lambda n: "[a](/u (" + "(" * n + ")",
+    "link-dest-parens": lambda n: "[a](" + "(" * n + ")" * (n - 1) + ")",
+    "link-dest-escapes": lambda n: "[a](" + "\\(" * n + ")",
+    "trailing-spaces": lambda n: "a" + " " * n + "\nb" + " " * n,
+    "leading-spaces": lambda n: " " * n + "a\n" + "\t" * n + "b\n",
+    "setext-long-underline": lambda n: "h\n" + "=" * n + " \n\nh\n" + "-" * n + "x\n",
+    "thematic-spaced": lambda n: "- " * n + "\n\n" + "* " * n + "\n\n" + "_ " * n + "_\n",
+    "atx-closing-run": lambda n: "# h " + "#" * n + "\n# h " + "# " * n + "\n",
+    "fence-info-long": lambda n: "```" + "a " * n + "\nx\n```\n",
+    "fence-long-markers": lambda n: "`" * (n + 3) + "\nx\n" + "`" * (n + 2) + "\n" + "`" * (n + 3) + "\n",
+    "underscore-words": lambda n: "a_" * n + "b " + "_a" * n,
+    "star-space-alternation": lambda n: "* " * 2 + "*a " * n + "**",
+    "bang-brackets": lambda n: "![" * n + "a" + "]" * n,
+    "backslash-newlines": lambda n: "a\\\n" * n + "b",
+    "tab-columns": lambda n: "-\t" + "a\tb" * n + "\n>\t" + "\tc" * n,
+    "ordered-big-numbers": lambda n: "".join(f"{10 ** 8 + i}. a\n" for i in range(n)),
+    "quote-lazy-lines": lambda n: "> a\n" + "b\n" * n,
+    "nested-quote-list": lambda n: "".join("> " * (i % 5 + 1) + "- a\n" for i in range(n)),
+    "html-block-lines": lambda n: "<div>\n" + "x\n" * n + "</div>\n\n<!--\n" + "y\n" * n + "-->\n",
+    "strikethrough-like": lambda n: "~~a~ " * n,
+    "pragma-lines": lambda n: "<!-- pyml disable-next-line md013-->\na\n" * n,
 }
 SIZES = [8, 16, 32, 64, 128, 256]
 SIZES_THOROUGH = SIZES + [512]
@@ -52,6 +90,8 @@ def family_job(payload):
         src = FAMILIES[name](n)
         toks, sig, work = docprops.guarded_parse(src, count_work=True)
         out.append((n, len(src), sig, work))
+        if sig:
+            break  # larger members of a failing family only repeat the failure (and, for a hang, the backstop time)
     return name, out
 
 
